@@ -20,7 +20,7 @@ from pyvc.npmodel import np as NP
 from pyvc import runtime
 
 F = "wannierberri/grid/tetrahedron.py"
-DIFF_MIN = Fraction(1, 10 ** 12)
+DIFF_MIN = Fraction(1e-12)        # the code's float literal, with its exact binary value
 
 
 # ------------------------------------------------------------------ spec functions (polymorphic: Fraction/float or symbolic)
